@@ -368,6 +368,9 @@ def bc_classify(a):
             return 'issue'
         if isinstance(a.func, ast.Subscript) and dotted(a.func.value) == 'self.command':
             return 'linecb'
+    if isinstance(a, ast.Assign) and isinstance(a.value, ast.Subscript) and isinstance(a.value.slice, ast.Slice) and isinstance(a.targets[0], ast.Name) \
+            and dotted(a.value.value) == a.targets[0].id and a.value.slice.upper is not None:
+        return 'cut'      # <text> = <text>[:-k]: something is cut off the end of the collected text
     if isinstance(a, (ast.Assign, ast.AugAssign)):
         out = []
         for f, tag in (('self.command', 'command'), ('self.defer', 'defer'), ('self.code', 'code'), ('self.response', 'response')):
@@ -412,6 +415,9 @@ def r01_5(run, rid='R01.5', classes=('2xx', '5xx', 'other', 'none')):
                 if normal:
                     ob('event: exactly one _handle_notify', tags.count('notify') == 1, 'notify-once',
                        '6xx reply dispatches %d notifications' % tags.count('notify'))
+                if 'notify' in tags:
+                    ob('event: listeners get the text as Tor sent it (nothing cut off before dispatch)', 'cut' not in tags[:tags.index('notify')], 'event-text-uncut',
+                       'the text of a 650 event is shortened before it is dispatched: an event closed by "650 OK" loses that line (a two-line event then loses the last letter of its name and reaches nobody)')
                 ob('event: no command Deferred fired', 'callback' not in tags and 'errback' not in tags, 'no-fire',
                    'a 650 event fires the in-flight command')
                 ob('event: in-flight slot untouched', not any(t in tags for t in ('reset_command', 'set_command', 'reset_defer', 'set_defer')),
@@ -795,35 +801,37 @@ def r01_6(run):
                 want = FSM_ORACLE.get((sname, cname))
                 if want is None:
                     continue
-                fired, undec = None, False
-                for t in trans:
-                    r = classify(matcher_fn(t['matcher'], cur_code), prefix, exact)
-                    if r is None:
-                        run.ob('R01.6', init, t['node'], 'matcher decided on class %s in %s' % (cname, sname), None,
-                               message='matcher %s is not constant on line class %r' % (src(t['matcher'])[:40], prefix))
-                        undec = True
-                        break
-                    if isinstance(r, tuple):
-                        run.ob('R01.6', init, t['node'], 'no matcher raises on a well-formed %s line in %s' % (cname, sname), False, slot='raises:%s:%s' % (sname, cname),
-                               message='in %s the matcher %s raises %s on a %r... line (code %s)' % (sname, src(t['matcher']), r[1], prefix, code_txt))
-                        undec = True
-                        break
-                    if r:
-                        fired = t
-                        break
-                if undec:
-                    continue
-                if fired is None:
-                    run.ob('R01.6', init, init.node, 'a transition fires for %s in %s' % (cname, sname), False, slot='nofire:%s:%s' % (sname, cname),
-                           message='no transition of %s matches a %r line: the line is dropped with a "No next state" warning' % (sname, prefix))
-                    continue
-                nxt = tab.states.get(fired['next'], fired['next'])
-                h = fired['handler']
-                hd = dotted(h) if h is not None else None
-                role = ROLE.get(hd, 'none' if (h is None or is_none(h) or (isinstance(h, ast.Lambda) and is_none(h.body))) else 'other:%s' % src(h)[:30])
-                ok = (nxt, role) == want
-                run.ob('R01.6', init, fired['node'], '%s + %s line (code %s) -> %s / %s' % (sname, cname, code_txt, want[0], want[1]), ok, slot='fsm:%s:%s' % (sname, cname),
-                       message='in state %s a %s line %r goes to %s via %s (control-spec 2.3 wants %s / %s)' % (sname, cname, prefix, nxt, role, want[0], want[1]))
+                from ..strsem import TAILS, Raised
+                members = [prefix] if exact else [prefix + tl for tl in TAILS]
+                outcomes = {}
+                for line_ in members:
+                    res = ('nofire', None, None)
+                    for t in trans:
+                        try:
+                            hit = bool(matcher_fn(t['matcher'], cur_code)(line_))
+                        except Raised as ex:
+                            res = ('raise', ex.kind, t)
+                            break
+                        if hit:
+                            nxt = tab.states.get(t['next'], t['next'])
+                            h = t['handler']
+                            hd = dotted(h) if h is not None else None
+                            role = ROLE.get(hd, 'none' if (h is None or is_none(h) or (isinstance(h, ast.Lambda) and is_none(h.body))) else 'other:%s' % src(h)[:30])
+                            res = ('fire', (nxt, role), t)
+                            break
+                    outcomes.setdefault((res[0], res[1]), (line_, res[2]))
+                for (kind, val), (line_, t) in sorted(outcomes.items(), key=lambda kv: str(kv[0])):
+                    where = t['node'] if t is not None else init.node
+                    if kind == 'raise':
+                        run.ob('R01.6', init, where, 'no matcher raises on a well-formed %s line in %s' % (cname, sname), False, slot='raises:%s:%s' % (sname, cname),
+                               message='in %s the matcher %s raises %s on the line %r (code %s)' % (sname, src(t['matcher']), val, line_, code_txt))
+                    elif kind == 'nofire':
+                        run.ob('R01.6', init, where, 'a transition fires for %s in %s' % (cname, sname), False, slot='nofire:%s:%s' % (sname, cname),
+                               message='no transition of %s matches the line %r: it is dropped with a "No next state" warning, the reply it ends is never delivered' % (sname, line_))
+                    else:
+                        ok = val == want
+                        run.ob('R01.6', init, where, '%s + %s line (code %s) -> %s / %s' % (sname, cname, code_txt, want[0], want[1]), ok, slot='fsm:%s:%s' % (sname, cname),
+                               message='in state %s the %s line %r goes to %s via %s (control-spec 2.3 wants %s / %s)' % (sname, cname, line_, val[0], val[1], want[0], want[1]))
     # the machine starts in IDLE and the unused first state is never entered
     st = [n for n in walk_unit(init) if isinstance(n, ast.Assign) and dotted(n.targets[0]) == 'self.fsm.state']
     ok = len(st) == 1 and tab.states.get(dotted(st[0].value)) == 'IDLE'
@@ -844,6 +852,12 @@ def r01_6(run):
         run.ob('R01.6', hu, hu.node, '%s never redirects the machine (returns None)' % hn, not rets, slot='handler-returns:%s' % hn, message='%s returns %s' % (hn, [src(r.value) for r in rets]))
 
 
+def r01_12(run):
+    """data-block lines are dot-unstuffed before they reach the reply text *or* the per-line callback (rule R13.1, shared)"""
+    from . import c13
+    borrow(run, c13.r13_1, 'R01.12')
+
+
 def r01_10(run):
     from . import c13
     c13.ok_removal(run, 'R01.10')
@@ -851,6 +865,7 @@ def r01_10(run):
 
 RULES = [
     ('R01.10', 'the final OK line is removed exactly (cut by the length of the tested suffix, no character-set strip)', r01_10),
+    ('R01.12', 'dot-unstuffing precedes both sinks of a data-block line: reply text and per-line callback (R13.1 borrowed)', r01_12),
     ('R01.6', 'FSM table x abstract line classes (matcher ASTs interpreted on class representatives, first-match) against the control-spec 2.3 reply grammar, for 2xx/5xx/6xx codes', r01_6),
     ('R01.1', 'who-may-call: the control transport is written only in _maybe_issue_command', r01_1),
     ('R01.2', 'def-use: written bytes = queued command (tuple element agreement) + constant CRLF', r01_2),
@@ -866,6 +881,8 @@ RULES = [
 from ..selftest import M  # noqa: E402
 F = 'txtorcon/torcontrolprotocol.py'
 MUTANTS = [
+    M('linecb-gets-stuffed-line', F, "        if line.startswith('.'):\n            line = line[1:]\n        if self._wants_lines():\n            self.command[2](line)\n", "        if self._wants_lines():\n            self.command[2](line)\n            return None\n        if line.startswith('.'):\n            line = line[1:]\n        if False:\n            pass\n", ['R01.12/R13.1']),
+    M('empty-status-line-dropped', F, "sl = len(line) > 3 and line[3] == ' '", "sl = len(line) > 4 and line[3] == ' '", ['R01.6']),
     M('code-200-not-2xx-for-linecb', F, "            if self.code >= 200 and self.code < 300 and \\\n               self.command and self.command[2] is not None:", "            if self.code > 200 and self.code < 300 and \\\n               self.command and self.command[2] is not None:", ['R01.8']),
     M('final-line-payload-dropped', F, "                self.command[2](line[4:])\n                resp = ''", "                resp = ''", ['R01.8']),
     M('issue-wipes-accumulator', F, "            self.defer = d\n", "            self.defer = d\n            self.response = ''\n", ['R01.11']),
